@@ -9,8 +9,9 @@ Paths of plain fields (root store, `Subfield` chains, `unwrap()`), any depth:
 * `C16_notify_closed_form`, `C16_root_first` — the notified list is `children` of every prefix from the root
   down, then `this(p)`: ordered by path length.
 * `C16_wake_order_partial` — the reader of an ancestor-or-self `a` of the written field is hit strictly before
-  any reader of a proper descendant of `a`; `C16_wake_order_full` (any two notified readers) is false:
-  `C16_wake_order_full_false`, machine witness `C16_descendant_wake_order_witness` (F-C16-7).
+  any reader of a proper descendant of `a` (this is the property's order clause and more);
+  the stronger reading "any two notified readers" fails (`C16_wake_order_all_pairs_false`,
+  `C16_subscription_order_below_written_field`) — documented, not a finding.
 * state machine (ordered subscriber sets, effects): `C16_run_subscribes`, `C16_write_wakes_iff_related`,
   `C16_sees_written_value` (with the lens laws `get_set_*`).
 
@@ -23,7 +24,7 @@ Witnesses (kernel `decide` on concrete machine histories) of the defects of the 
 `C16_index_write_wakes_cousin_witness` (F-C16-2), `C16_keyed_field_misses_root_witness`,
 `C16_at_keyed_misses_parent_witness`, `C16_at_index_misses_parent_witness` (F-C16-3),
 `C16_patch_keyed_by_index_witness` (F-C16-4), `C16_stale_keys_panic_witness` (F-C16-5),
-`C16_absent_key_path_collapse_witness` (F-C16-6).
+`C16_removed_key_reader_not_dropped_witness` (F-C16-6).
 -/
 namespace Leptos.Store
 
@@ -970,14 +971,17 @@ theorem C16_wake_order_partial (p a q : Path) (hap : a <+: p) (haq : a <+: q) (h
           omega
         · simp [C, T] at h'
 
-/-- the **full** order statement: of two notified readers the one nearer to the root is hit strictly first -/
-def C16_wake_order_full : Prop :=
+/-- a reading of the order clause that is **stronger than the property** (of *any* two notified readers the
+one nearer to the root is hit strictly first); kept to document where the guarantee ends -/
+def C16_wake_order_all_pairs : Prop :=
   ∀ p a q : Path, a <+: q → a ≠ q → (p <+: a ∨ a <+: p) → (p <+: q ∨ q <+: p) →
     ∃ (i : Nat) (t : Trig), (notifySet p)[i]? = some t ∧ t ∈ trackSet a ∧
       ∀ (j : Nat) (t' : Trig), (notifySet p)[j]? = some t' → t' ∈ trackSet q → i < j
 
-/-- false (F-C16-7): below the written field every reader is woken by the one trigger `this(p)` -/
-theorem C16_wake_order_full_false : ¬ C16_wake_order_full := by
+/-- it is false: below the written field every reader is woken by the one trigger `this(p)`, in subscription
+order (machine run: `C16_subscription_order_below_written_field`). Not a finding: the property orders
+readers of ancestors of the written field before readers of its descendants, which is `C16_wake_order_partial`. -/
+theorem C16_wake_order_all_pairs_false : ¬ C16_wake_order_all_pairs := by
   intro h
   obtain ⟨i, t, h1, h2, h3⟩ := h [1] [1, 1] [1, 1, 0] (by decide) (by decide) (by decide) (by decide)
   have hq : T [1] ∈ trackSet [1, 1, 0] := by decide
@@ -1418,15 +1422,21 @@ theorem C16_stale_keys_panic_witness :
                     .set [] (demoRoot (demoMid []) [] [] [rowV 10 1000, rowV 11 1100]),
                     .idle]).panicked = true := by decide
 
-/-- F-C16-6: the reader of an absent key tracks the collection's own triggers -/
-theorem C16_absent_key_path_collapse_witness :
-    (walk stRows [.kfld 4, .key 30]).2.trackList = [T [4], C [4]] ∧
-    C [4] ∈ (walk stRows [.kfld 4, .key 10, .fld 2, .fld 1]).2.tr ∧
-    related [.kfld 4, .key 10, .fld 2, .fld 1] [.kfld 4, .key 30] = false := by decide
+/-- F-C16-6: keyed store built by pushing 10, 11, 12; reader of `rows@11.label`; remove key 11; push 14
+(reuses segment 1); a write to `rows@14.sub.v` wakes the reader of the removed key 11 -/
+theorem C16_removed_key_reader_not_dropped_witness :
+    let st := runOps (St.init (demoRoot (demoMid []) [] [] []))
+      [.reader [.kfld 4, .key 11, .fld 1] false false,
+       .kpush [.kfld 4] (rowV 10 1000), .kpush [.kfld 4] (rowV 11 1100), .kpush [.kfld 4] (rowV 12 1200),
+       .idle, .kremove [.kfld 4] 1, .idle, .kpush [.kfld 4] (rowV 14 1400), .idle,
+       .set [.kfld 4, .key 14, .fld 2, .fld 0] (.leaf 5)]
+    st.ready = [0] ∧ (logicalGet st.val [.kfld 4, .key 11, .fld 1] matches .none) ∧
+    related [.kfld 4, .key 14, .fld 2, .fld 0] [.kfld 4, .key 11, .fld 1] = false := by decide
 
-/-- F-C16-7: immediate readers of `mid.inner.v`, `mid.inner`, `mid` created in this order; a write
-through `mid` runs `mid` (woken by `children(mid)`), then `mid.inner.v` **before** `mid.inner` -/
-theorem C16_descendant_wake_order_witness :
+/-- not a finding (see `C16_wake_order_all_pairs_false`): immediate readers of `mid.inner.v`, `mid.inner`,
+`mid` created in this order; a write through `mid` runs `mid` (woken by `children(mid)`), then
+`mid.inner.v` before `mid.inner` — subscription order among the readers below the written field -/
+theorem C16_subscription_order_below_written_field :
     ((runOps (St.init (demoRoot (demoMid []) [] [] []))
       [.reader [.fld 1, .fld 1, .fld 0] false true,
        .reader [.fld 1, .fld 1] false true,
